@@ -27,7 +27,10 @@ CONSTANTS N,            \* check_times = timeout in ticks
           Strangers,    \* responses that match no request (id 0, unknown ids): model values / numbers
           EraseFirst,   \* TRUE: the callback is taken out of the map before it is invoked (intended)
                         \* FALSE: invoked first, erased after it returns (as found in the unrepaired code)
-          KeepOnResponse \* TRUE: mutant - a response leaves the callback registered (non-vacuity)
+          KeepOnResponse, \* TRUE: mutant - a response leaves the callback registered (non-vacuity)
+          PeerIds,      \* ids of the requests the PEER sends to us (they count 1, 2, 3 like our own: the numbers overlap)
+          AsyncIntoRequestRing \* TRUE: mutant - the id of a peer request that a service answers asynchronously is put
+                        \* into request_timeout_ (the monitor of OUR requests) instead of respond_timeout_ (non-vacuity)
 
 VARIABLES now, nextId, cbs, ring, cur, nvals, timerOn, due, stack, closed,
           \* ghost (observation only)
@@ -87,6 +90,23 @@ Notify  == /\ Idle /\ ~closed /\ ~TickDue /\ UNCHANGED vars          \* id 0, no
 Response == /\ Idle /\ ~closed /\ ~TickDue /\ \E id \in 1..nextId : DoResponse(id, stack)
 StrangerResponse == /\ Idle /\ ~closed /\ ~TickDue /\ Strangers # {} /\ UNCHANGED vars   \* no id of the map: no effect
 
+(* ---- the other direction: the peer's requests, served by our services ---------------------------------- *)
+(* A synchronous service answers at once; an asynchronous one returns false, the id waits in tobe_respond_ /          *)
+(* respond_timeout_ (a second monitor with its own ring, whose expiry only logs a warning) until respond() is        *)
+(* called, or for ever.  None of this touches the requests WE issued, so in the intended design these are            *)
+(* stuttering steps of this model; the mutant shows what happens when the peer's id gets into our ring.              *)
+IncomingSync == /\ Idle /\ ~closed /\ ~TickDue /\ PeerIds # {} /\ UNCHANGED vars
+InAsync(pid) ==
+  /\ Idle /\ ~closed /\ ~TickDue
+  /\ IF AsyncIntoRequestRing
+     THEN /\ ring' = [ring EXCEPT ![cur] = Append(@, pid)]
+          /\ timerOn' = TRUE /\ due' = IF nvals = 0 THEN now + T ELSE due
+          /\ nvals' = nvals + 1
+          /\ UNCHANGED <<now, nextId, cbs, cur, stack, closed, issued, calls, how, tcall, respFirst, ignoredHit>>
+     ELSE UNCHANGED vars
+IncomingAsync == \E pid \in PeerIds : InAsync(pid)
+RespondLater == /\ Idle /\ ~closed /\ ~TickDue /\ PeerIds # {} /\ UNCHANGED vars        \* Rpc::respond(id, ...)
+
 (* ---- a completion callback is running ------------------------------------------------------------- *)
 Rest == [Top EXCEPT !.body = Tail(@)]
 BodyReq == /\ InCb /\ Top.body # <<>> /\ Head(Top.body)[1] = "req"
@@ -139,7 +159,8 @@ Cleanup == /\ Idle /\ ~closed /\ ~TickDue
            /\ closed' = TRUE /\ cbs' = {} /\ ring' = [i \in 1..N |-> <<>>] /\ nvals' = 0 /\ timerOn' = FALSE
            /\ UNCHANGED <<now, nextId, cur, due, stack, issued, calls, how, tcall, respFirst, ignoredHit>>
 
-Next == Request \/ Notify \/ Response \/ StrangerResponse \/ BodyReq \/ BodyRsp \/ CbEnd
+Next == Request \/ Notify \/ Response \/ StrangerResponse \/ IncomingSync \/ IncomingAsync \/ RespondLater
+        \/ BodyReq \/ BodyRsp \/ CbEnd
         \/ Tick \/ TmoFire \/ TmoSkip \/ TickEnd \/ Advance \/ Cleanup
 Spec == Init /\ [][Next]_vars
 
